@@ -537,16 +537,33 @@ def gen_level3_sparse(rng: random.Random, tier: str) -> dict:
 def gen_level4_pam(rng: random.Random, tier: str) -> dict:
     """Level 4 maps with the permutation-aware algorithm (two routing
     rounds, blocks pre-synthesised under every input/output permutation):
-    four or five qudits with three-qudit structure and SWAPs on a sparse
-    graph, so that cyclic block permutations and a non-identity mapping
-    after the first round occur."""
+    four or five qudits on a sparse graph.  Two variants: random circuits
+    with extra SWAPs, so that the first routing round ends with a
+    non-identity mapping; entangler-dense circuits, whose three-qudit
+    blocks have real content, so that a non-trivial (possibly cyclic)
+    block output permutation can save routing."""
     from dst.workload import compile_inputs as CI
     n = rng.choice([4, 4, 5])
-    inp = CI.gen_circuit(rng, n, rng.randint(6, 10), p3=0.15,
-                         barriers=False, blocks=False)
-    for _ in range(rng.randint(0, 2)):
-        inp['gates'].insert(rng.randrange(len(inp['gates']) + 1),
-                            {'g': 'swap', 'q': rng.sample(range(n), 2)})
+    if rng.random() < 0.5:
+        inp = CI.gen_circuit(rng, n, rng.randint(5, 8), p3=0.0,
+                             barriers=False, blocks=False)
+        for _ in range(rng.randint(0, 2)):
+            inp['gates'].insert(rng.randrange(len(inp['gates']) + 1),
+                                {'g': 'swap', 'q': rng.sample(range(n), 2)})
+    else:
+        gates = []
+        for _ in range(rng.randint(6, 12)):
+            if rng.random() < 0.65:
+                gates.append({'g': rng.choice(['cx', 'cx', 'cz']),
+                              'q': rng.sample(range(n), 2)})
+            else:
+                gates.append({'g': 'u3', 'q': [rng.randrange(n)],
+                              'p': [round(rng.uniform(0, 6), 6)
+                                    for _ in range(3)]})
+        inp = {'kind': 'circuit', 'n': n, 'gates': gates}
+        if rng.random() < 0.3:
+            inp['measure'] = sorted(rng.sample(range(n),
+                                               rng.randint(1, n)))
     model = {'n': n + (1 if rng.random() < 0.2 else 0), 'd': 2,
              'graph': rng.choice(['line', 'line', 'star', 'ring']),
              'gateset': 'default'}
@@ -566,7 +583,7 @@ def gen_c01(rng: random.Random, tier: str) -> dict:
         return gen_deep_routing(rng, tier)
     if r0 < 0.18:
         return gen_level3_sparse(rng, tier)
-    if r0 < 0.30:
+    if r0 < (0.40 if big else 0.28):
         return gen_level4_pam(rng, tier)
     n = rng.choice([1, 2, 2, 3, 3, 4] + ([5, 6] if big else []))
     depth = rng.randint(2, 10 if n <= 3 else 7)
